@@ -110,7 +110,12 @@ pub fn gen_c05(ctx: &Ctx, run: u64) -> ScenarioA {
         3 => rng.range(4, 14),
         _ => rng.range(3, if ctx.thorough() { 40 } else { 26 }),
     } as usize;
-    let max_depth = if knobs.poll_interval.is_none() { 4 } else { 5 };
+    // polling at (almost) every node makes every node a scheduling step: keep those searches small
+    let max_depth = match knobs.poll_interval {
+        Some(1) | Some(7) => 3,
+        None => 4,
+        _ => 5,
+    };
     let mut script: Vec<Intent> = Vec::new();
     // what the GUI would believe about side to move, for clock generation only
     let mut cur: (Option<String>, Vec<String>) = (None, vec![]);
